@@ -6,7 +6,7 @@ MultiTapering's) is judged against the sinc concentration kernel built by the
 monitor and the eigenvectors of the commuting tridiagonal matrix
 (scipy.linalg.eigh_tridiagonal).  Memory: the same (N, k, NW) triples plus
 hostile ones run through ASan+UBSan builds of the C file (in-process via the
-real ctypes call, and stand-alone) and, in the thorough tier, valgrind
+real ctypes call, and stand-alone) and valgrind
 memcheck; outputs of the instrumented builds must equal the plain -O2 build.
 """
 import numpy as np
@@ -153,6 +153,13 @@ def cases(c):
         out.append({'lane': 'asan-inproc', 'batch': b, 'cases': inproc, 'directed': True})
         if not quick:
             out.append({'lane': 'valgrind', 'batch': b, 'triples': tri[:200], 'directed': True})
+        else:
+            # a short memcheck lane in the quick tier too: reads of never-written heap words (which ASan's red zones
+            # cannot see and which change results only when the recycled word happens to be NaN/Inf) are
+            # deterministic reports here; small N, k close to 2NW (all elimination branches of the inverse iteration)
+            small = [(8, 5, 2.5), (16, 8, 4.0), (17, 5, 2.5), (32, 12, 6.0), (64, 16, 8.0), (9, 3, 1.5), (24, 7, 3.5),
+                     (63, 5, 2.5), (31, 8, 4.0), (40, 6, 3.0)] + [t for t in tri if t[0] <= 128][:25]
+            out.append({'lane': 'valgrind', 'batch': b, 'triples': small, 'directed': True})
     for N in (range(8, 41, 1) if quick else range(8, 65)):
         for NW in NWS:
             if NW >= N / 2.0:
@@ -265,5 +272,5 @@ def finish(c):
         c.flag_inconclusive('in-process sanitizer lane observed no call')
     if san.get('driver_asan_calls', 0) == 0:
         c.flag_inconclusive('stand-alone sanitizer lane observed no call')
-    if c.tier == 'thorough' and san.get('valgrind_calls', 0) == 0:
+    if san.get('valgrind_calls', 0) == 0:
         c.flag_inconclusive('valgrind lane observed no call')
